@@ -187,6 +187,37 @@ def fail(prop, sig, **args):
     return sig
 
 
+def no_library_imports(prop):
+    """Decorator for harness functions of the confinement properties: while the harness runs,
+    builtins.__import__ is a recorder that delegates to the real one; an `import` statement (or an
+    __import__ call) executed from a module of the yaml package turns an otherwise clean verdict
+    into a violation.  sys.modules alone cannot show it: the module may already be loaded in this
+    process, it would not be in the user's."""
+    import builtins
+    import functools
+
+    def deco(fn):
+        @functools.wraps(fn)
+        def wrapper(*a, **k):
+            log = []
+            real = builtins.__import__
+
+            def watch(name, globals=None, locals=None, fromlist=(), level=0):
+                if globals is not None and str(globals.get('__name__', '')).split('.')[0] == 'yaml':
+                    log.append(str(name))
+                return real(name, globals, locals, fromlist, level)
+            builtins.__import__ = watch
+            try:
+                r = fn(*a, **k)
+            finally:
+                builtins.__import__ = real
+            if log and (r == 'ok' or r.startswith('known:')):
+                return fail(prop, 'IMPORT code of the yaml package executed an import during the load: ' + ', '.join(sorted(set(log))))
+            return r
+        return wrapper
+    return deco
+
+
 def pick(i, seq):
     """seq[i] through an explicit if-chain (no symbolic indexing)."""
     n = len(seq)
